@@ -3,10 +3,16 @@ package cdi
 // C01 — device resolution follows Spec-directory precedence (and, with faults switched on, C13 — a bad Spec file or
 // directory affects only itself and is reported). The oracle is computed from the directory model alone.
 
+import (
+	"os"
+	"path/filepath"
+)
+
 func init() {
 	vregister("H_C01_precedence", H_C01_precedence)
 	vregister("H_C13_faults", H_C13_faults)
 	vregister("H_C13_repair", H_C13_repair)
+	vregister("H_C13_dirrepair", H_C13_dirrepair)
 }
 
 type vDef struct {
@@ -211,6 +217,36 @@ func H_C13_faults() {
 	// the resolution oracle, computed per directory from the valid, reachable files alone, still holds
 	vCheckResolution(c, m, list)
 	vCheckErrors(c, list, rerr)
+}
+
+// a directory-level error (a file at the path, a file as an ancestor, an unreadable directory) disappears from every
+// error report at the first refresh after the directory has become a readable directory of valid Specs
+func H_C13_dirrepair() {
+	m := vDrawFS(1, true, 1)
+	defer vCleanupFS()
+	d := m.dirs[0]
+	vassume(d.state != vDirOK)
+	was := d.state
+	c := newCache(WithAutoRefresh(false), WithSpecDirs(d.path)) // manual refresh: nothing but Refresh() may clear the entry
+	_ = c.Refresh()
+	// repair: the path becomes a readable directory (empty: nothing in it can be in error)
+	d.state = vDirOK
+	if vnative() {
+		os.Chmod(d.path, 0o755)
+		if was == vDirNotDir {
+			os.Remove(d.path)
+		}
+		if was == vDirAncestor {
+			os.Remove(filepath.Dir(d.path))
+		}
+		os.MkdirAll(d.path, 0o755)
+	}
+	rerr := c.Refresh()
+	vreach("directory-repaired")
+	vassert("refresh-ok-after-directory-repair", rerr == nil)
+	vassert("no-error-entries-after-directory-repair", len(c.GetErrors()) == 0)
+	rerr = c.Refresh()
+	vassert("still-no-error-entries-at-the-next-refresh", rerr == nil && len(c.GetErrors()) == 0)
 }
 
 // an error entry disappears at the first refresh after its cause is gone
